@@ -22,7 +22,7 @@ func init() {
 		Explain: "Decided: (R1) every use of an http.Response.Body in registry/remote, its errutil and auth packages is Close, a hand-off of content to the caller, " +
 			"or the first argument of io.LimitReader / the package's limit helper — nothing parses a response body unbounded; descriptor-sized reads " +
 			"(content.ReadAll / FetchAll / decodeJSON) are dominated by a successful limitSize of the same descriptor; the limit helpers use the given limit or the default, " +
-			"the given one only when positive; decode/read errors are returned; (R2) each page loop feeds the page function's returned URL into the next call, " +
+			"the given one only when positive; decode/read errors are returned; a bounded io.ReadAll of a response (which, unlike a JSON decoder, stops silently at the limit) is gated by a test of the bytes read or of Content-Length against the limit; (R2) each page loop feeds the page function's returned URL into the next call, " +
 			"leaves only when the page function fails, maps only errNoLink to success, sends `last` on the first page only, page functions keep the query of the URL they were given, " +
 			"return the callback's error, call the callback before taking the next link, and parseLink resolves the link against the request URL and reports errNoLink only for an absent header; " +
 			"(R3) the referrers page is filtered client-side unless no filter was asked or the server declares it applied, the tag-schema path always filters; " +
@@ -200,7 +200,7 @@ func c15R1(c *Ctx) {
 			}
 		}
 	}
-	_ = limited
+	c15Truncation(c, limited, isLimiter)
 
 	// descriptor-sized reads behind limitSize
 	sls := c15SizeLimiters(c.P)
@@ -271,6 +271,151 @@ func c15R1(c *Ctx) {
 	}
 	for _, l := range lims {
 		c15LimiterBody(c, RH, l)
+	}
+}
+
+// c15Truncation: io.ReadAll over a limited reader stops silently at the limit
+// (unlike a JSON decoder, which fails on a cut document).  A function that
+// reads a response this way must have its success gated by a test that can see
+// the truncation: a condition mentioning len(bytes read) or the response's
+// Content-Length compared with a non-constant — in the function itself after
+// the read, or dominating every call of it (size guard / Content-Length test
+// in the callers).
+func c15Truncation(c *Ctx, limited []ssa.CallInstruction, isLimiter map[*ssa.Function]bool) {
+	const RT = "C15.R1.truncation-detected"
+	c.Expect(RT, 1)
+	mentions := func(v ssa.Value, pred func(ssa.Value) bool) bool {
+		seen := map[ssa.Value]bool{}
+		var rec func(v ssa.Value, d int) bool
+		rec = func(v ssa.Value, d int) bool {
+			if v == nil || d > 6 || seen[v] {
+				return false
+			}
+			seen[v] = true
+			if pred(v) {
+				return true
+			}
+			switch u := v.(type) {
+			case *ssa.BinOp:
+				return rec(u.X, d+1) || rec(u.Y, d+1)
+			case *ssa.UnOp:
+				if u.Op == token.NOT || u.Op == token.SUB {
+					return rec(u.X, d+1)
+				}
+			case *ssa.Convert:
+				return rec(u.X, d+1)
+			case *ssa.ChangeType:
+				return rec(u.X, d+1)
+			case *ssa.Phi:
+				for _, e := range u.Edges {
+					if rec(e, d+1) {
+						return true
+					}
+				}
+			case *ssa.Call:
+				if CalleeName(u) == "builtin:len" {
+					return rec(u.Call.Args[0], d+1)
+				}
+			}
+			return false
+		}
+		return rec(v, 0)
+	}
+	// Ifs of fn whose condition compares (something mentioning pred) with a non-constant
+	gates := func(fn *ssa.Function, pred func(ssa.Value) bool) []*ssa.If {
+		var out []*ssa.If
+		for _, i := range Ifs(fn) {
+			cond, _, _ := ifEdges(i)
+			bo, ok := cond.(*ssa.BinOp)
+			if !ok {
+				continue
+			}
+			_, xc := bo.X.(*ssa.Const)
+			_, yc := bo.Y.(*ssa.Const)
+			if xc || yc {
+				continue
+			}
+			if mentions(bo.X, pred) || mentions(bo.Y, pred) {
+				out = append(out, i)
+			}
+		}
+		return out
+	}
+	sls := c15SizeLimiters(c.P)
+	for _, l := range limited {
+		f := l.Parent()
+		lv := l.Value()
+		if lv == nil || isLimiter[f] {
+			continue
+		}
+		for a := range Aliases(lv) {
+			if a.Referrers() == nil {
+				continue
+			}
+			for _, use := range *a.Referrers() {
+				ra, ok := use.(*ssa.Call)
+				if !ok || CalleeName(ra) != "io.ReadAll" {
+					continue
+				}
+				key := FnName(f) + "|io.ReadAll"
+				data := c13AliasSet(ResultOf(ra, 0))
+				cl := c13FieldLoads(f, c13PkgHTTP, "Response", "ContentLength", nil)
+				inFn := false
+				// an unknown length (Content-Length < 0) is rejected by the descriptor generators (C13.R2): exempt
+				unknownLen := c13TestsOf(f, cl).lt0
+				for _, g := range gates(f, func(v ssa.Value) bool { return data[v] || cl[v] }) {
+					_, t, e := ifEdges(g)
+					for _, edge := range []Edge{t, e} {
+						if c13SuccessEscapes(f, f.Blocks[0], 0, newCut().Edges(edge).Edges(unknownLen...), nil) == nil {
+							inFn = true
+						}
+					}
+				}
+				if inFn {
+					c.OK(RT, key, ra.Pos(), "success after the bounded ReadAll is gated by a test of the bytes read / the Content-Length")
+					continue
+				}
+				// callers
+				callers := 0
+				allGuarded := true
+				for _, rel := range c15Pkgs {
+					for _, g := range c.P.FuncsOfPkg(rel) {
+						for _, call := range c13CallsToFn(g, f) {
+							callers++
+							guarded := false
+							gcl := c13FieldLoads(g, c13PkgHTTP, "Response", "ContentLength", nil)
+							for _, gi := range gates(g, func(v ssa.Value) bool { return gcl[v] }) {
+								_, t, e := ifEdges(gi)
+								for _, edge := range []Edge{t, e} {
+									if MustPass(call.(ssa.Instruction), newCut().Edges(edge)) {
+										guarded = true
+									}
+								}
+							}
+							for _, sl := range sls {
+								for _, sc := range c13CallsToFn(g, sl) {
+									if e := ErrOf(sc); e != nil {
+										nilE, _, _ := NilTests(g, Aliases(e))
+										if len(nilE) > 0 && MustPass(call.(ssa.Instruction), newCut().Edges(nilE...)) {
+											guarded = true
+										}
+									}
+								}
+							}
+							if !guarded {
+								allGuarded = false
+							}
+						}
+					}
+				}
+				if callers > 0 && allGuarded {
+					c.OK(RT, key, ra.Pos(), "every call of the function is dominated by a size guard / Content-Length test")
+					continue
+				}
+				c.Violation(RT, key, ra.Pos(), "io.ReadAll over the size-limited body stops silently at the limit and nothing compares the bytes read or the Content-Length with the limit: "+
+					"a response larger than MaxMetadataBytes is truncated without error (FetchReference by tag without Docker-Content-Digest returns the digest of the prefix and a cut body)")
+			}
+		}
 	}
 }
 
@@ -376,20 +521,43 @@ func c15Int64Param(f *ssa.Function) *ssa.Parameter {
 func c15LimiterBody(c *Ctx, rule string, L *ssa.Function) {
 	calls := CallsTo(L, "io.LimitReader")
 	key := FnName(L) + "|limit-is-n-or-default"
-	if len(calls) != 1 {
-		c.Violation(rule, key, L.Pos(), fmt.Sprintf("the limit helper must wrap its reader in exactly one io.LimitReader (found %d)", len(calls)))
+	if len(calls) == 0 {
+		c.Violation(rule, key, L.Pos(), "the limit helper does not wrap its reader in io.LimitReader")
 		return
 	}
-	lr := calls[0]
-	okReader := lr.Common().Args[0] == ssa.Value(L.Params[0])
-	for _, a := range RetAtoms(L, 0) {
-		if a.Val != lr.Value() {
-			okReader = false
+	isLR := map[ssa.Value]bool{}
+	ok, why := true, ""
+	np := c15Int64Param(L)
+	pos := c15PosEdges(L, Aliases(np))
+	sawDefault := false
+	for _, lr := range calls {
+		isLR[lr.Value()] = true
+		if lr.Common().Args[0] != ssa.Value(L.Params[0]) {
+			ok, why = false, "io.LimitReader is not applied to the helper's own reader"
+		}
+		lim := lr.Common().Args[1]
+		if lim == ssa.Value(np) {
+			// the given limit as is: only where it is known positive
+			if !MustPass(lr.(ssa.Instruction), newCut().Edges(pos...)) {
+				ok, why = false, "the given limit is used on a path where it is not known to be positive (the zero value would mean `read nothing`)"
+			}
+			continue
+		}
+		if o, w := c15LimitValueOK(L, lim, np); !o {
+			ok, why = false, w
+		} else {
+			sawDefault = true
 		}
 	}
-	ok, why := c15LimitValueOK(L, lr.Common().Args[1], c15Int64Param(L))
-	c.Check(rule, key, lr.Pos(), ok && okReader,
-		ifelse(ok && okReader, "returns io.LimitReader(r, n>0 ? n : default)", ifelse(!okReader, "the helper does not return io.LimitReader of its own reader on every path", why)))
+	if ok && !sawDefault {
+		ok, why = false, "no default limit is substituted"
+	}
+	for _, a := range RetAtoms(L, 0) {
+		if !isLR[a.Val] {
+			ok, why = false, "the helper does not return io.LimitReader of its own reader on every path"
+		}
+	}
+	c.Check(rule, key, calls[0].Pos(), ok, ifelse(ok, "returns io.LimitReader(r, n>0 ? n : default)", why))
 }
 
 func c15SizeLimiterBody(c *Ctx, rule string, S *ssa.Function) {
@@ -824,6 +992,7 @@ func c15R3(c *Ctx) {
 		for _, cb := range cbs {
 			ok := true
 			why := ""
+			undecided := false
 			arg := cb.Common().Args[0]
 			// every value the callback may receive: the filter's result, or (API page only) the raw list on a skip edge
 			roots := Roots(arg)
@@ -849,10 +1018,22 @@ func c15R3(c *Ctx) {
 					}
 					if !inSkip && reach(f.Blocks[0], 0, edge.From.Instrs[len(edge.From.Instrs)-1], newCut().Edges(skip...)) {
 						ok, why = false, "the unfiltered list reaches the callback on a path where a filter was requested and the server did not declare it applied"
+						for _, pb := range append([]*ssa.BasicBlock{edge.From}, edge.From.Preds...) {
+							if iff, isIf := pb.Instrs[len(pb.Instrs)-1].(*ssa.If); isIf {
+								cond, _, _ := ifEdges(iff)
+								if _, isPhi := cond.(*ssa.Phi); isPhi {
+									undecided = true // decision kept in a boolean variable: needs path sensitivity
+								}
+							}
+						}
 					}
 				}
 			} else if conditional && !c13RootsIn(arg, filtered) {
 				ok, why = false, "the callback never receives the filter's result"
+			}
+			if !ok && undecided {
+				c.Undecided(R3, fn+"|callback-gets-filtered", cb.Pos(), "the decision to filter is kept in a boolean variable; this path-insensitive rule cannot relate it to the skip conditions")
+				continue
 			}
 			c.Check(R3, fn+"|callback-gets-filtered", cb.Pos(), ok, ifelse(ok, "the callback receives the filtered list unless no filter was requested or the server applied it", why))
 		}
@@ -954,6 +1135,10 @@ func c15R4(c *Ctx) {
 }
 
 var c15Mutants = []Mutant{
+	// applies only once the truncation defect (D8) is repaired the way notes/triage/d8-candidate-fix.diff does; skipped otherwise
+	{Name: "d8-size-guard-removed", File: "registry/remote/repository.go",
+		Old: "\t\t\tif err := limitSize(ocispec.Descriptor{Size: resp.ContentLength}, s.repo.MaxMetadataBytes); err != nil {\n\t\t\t\treturn ocispec.Descriptor{}, fmt.Errorf(\"%s %q: %w\", resp.Request.Method, resp.Request.URL, err)\n\t\t\t}\n",
+		New: "", Expect: "C15.R1.truncation-detected"},
 	{Name: "tags-unbounded-decode", File: "registry/remote/repository.go",
 		Old:    "\tlr := limitReader(resp.Body, r.MaxMetadataBytes)\n\tif err := json.NewDecoder(lr).Decode(&page); err != nil {",
 		New:    "\tif err := json.NewDecoder(resp.Body).Decode(&page); err != nil {",
